@@ -6,7 +6,10 @@ P=$1; D=$(readlink -f "$2"); shift 2
 IDS=${@:-$P}
 WT=/tmp/wt_try_$$; VC=/tmp/verif_try_$$
 git -C /repo worktree add -q --detach $WT HEAD || exit 2
-if ! git -C $WT apply "$D"; then echo "patch does not apply"; git -C /repo worktree remove --force $WT; exit 2; fi
+if ! git -C $WT apply "$D" 2>/dev/null; then
+  # the patch may have been made against an earlier HEAD: try a 3-way merge
+  if ! git -C $WT apply -3 "$D" >/dev/null 2>&1; then echo "patch does not apply"; git -C /repo worktree remove --force $WT; exit 2; fi
+fi
 rsync -a --exclude .git --exclude 'replay/*.json' /verif/ $VC/
 for id in $IDS; do
   (cd $VC && VERIF_REPO=$WT ./check $id 2>&1 | grep -E "VIOLATION|KNOWN|^\[|^  " | head -8)
